@@ -211,7 +211,7 @@ fn main() {
     cov.evaluations = all.get("runs") + all.get("tag_feedback_cases");
     cov.traces_validated = cov.evaluations;
     cov.distinct_nontrivial = all.get("active_cases");
-    cov.rule = format!("(i) full product final-release tags {:?} x {} branches x distance x dirty flag x post-mode x {} rule sets x hash lengths x --pre-release-label x --post x 11 standard presets x 2 formats through run_flow_pipeline, each output compared by independent comparators (R-SV precedence / standard PEP 440 order) with X.Y.Z and X.Y.(Z+1); (ii) distance chains 0..6 in commit mode for every (tag, branch, rule set, preset, format): strictly increasing where the preset prints post; (iii) every dev-less pre-release output fed back as --tag-version --clean must be reproduced, and (v) used as base tag, 1..3 further commits on the same branch in commit post-mode must give strictly increasing versions above it and below X.Y.(Z+1). (iv) real git: every placement of <= 2 final-release tags on the commits of every explored DAG shape (C02's shape BFS) x HEAD at every branch tip x work-tree states, `zerv flow -C` in both formats bounded by the model's nearest tag, plus a commit step on the checked-out branch that must increase the version. non-trivial = active (dirty or ahead) runs", TAGS.iter().map(|t| t.0).collect::<Vec<_>>(), BRANCHES.len(), sets.len());
+    cov.rule = format!("(i) full product final-release tags {:?} x {} branches x distance x dirty flag x post-mode x {} rule sets x hash lengths x --pre-release-label x --post x 11 standard presets x 2 formats through run_flow_pipeline, each output compared by independent comparators (R-SV precedence / standard PEP 440 order) with X.Y.Z and X.Y.(Z+1); (ii) distance chains 0..6 in commit mode for every (tag, branch, rule set, preset, format): strictly increasing where the preset prints post; (iii) every dev-less pre-release output fed back as --tag-version --clean must be reproduced, and (v) used as base tag, 1..3 further commits on the same branch in commit post-mode must give strictly increasing versions above it and below X.Y.(Z+1). (iv) real git: every placement of <= 2 final-release tags (and of one release tagged three times as v1.0.0 / v1.0 / v1) on the commits of every explored DAG shape (C02's shape BFS) x HEAD at every branch tip x work-tree states, `zerv flow -C` in both formats bounded by the model's nearest tag, plus a commit step on the checked-out branch that must increase the version. non-trivial = active (dirty or ahead) runs", TAGS.iter().map(|t| t.0).collect::<Vec<_>>(), BRANCHES.len(), sets.len());
     cov.exhaustive = true;
     cov.samples = vec![json!(argv(&cases[cases.len() / 3], &sets)), json!(argv(&cases[cases.len() - 5], &sets))];
     cov.set("clause_counts", all.to_json());
@@ -254,6 +254,9 @@ fn git_layer(ctx: &Ctx, quick: bool) -> Stats {
             // placements: v1.0.0 alone on any commit; v1.0.0 and v2.0.0 on any pair of commits
             let mut labelings: Vec<Vec<Tag>> = (0..n).map(|c| vec![Tag { name: "v1.0.0".into(), target: c, annotated: c % 2 == 1 }]).collect();
             for a in 0..n { for b in 0..n { labelings.push(vec![Tag { name: "v1.0.0".into(), target: a, annotated: false }, Tag { name: "v2.0.0".into(), target: b, annotated: true }]); } }
+            // the release commit also carries shorter spellings of the same version (floating tags v1 / v1.0): equal under
+            // PEP 440, so whichever is taken as base, the result must still be measured from 1.0.0
+            for c in 0..n { labelings.push(vec![Tag { name: "v1.0.0".into(), target: c, annotated: false }, Tag { name: "v1.0".into(), target: c, annotated: false }, Tag { name: "v1".into(), target: c, annotated: c % 2 == 0 }]); }
             for tags in &labelings {
                 repo.set_tags(tags);
                 for (b, &tip) in &shape.branches {
@@ -264,8 +267,8 @@ fn git_layer(ctx: &Ctx, quick: bool) -> Stats {
                     let nearest: Vec<&&Tag> = tagged.iter().filter(|t| !tagged.iter().any(|u| u.target != t.target && shape.ancestors_or_self(u.target).contains(&t.target))).collect();
                     if nearest.is_empty() { continue; }
                     // highest tag per nearest commit
-                    let bases: Vec<[u64; 3]> = nearest.iter().map(|t| { let same: Vec<&&Tag> = tagged.iter().filter(|u| u.target == t.target).collect(); same.iter().map(|u| names.iter().find(|x| x.0 == u.name).unwrap().1).max().unwrap() }).collect();
-                    let wts: &[WorkTree] = if tags.len() == 1 { &[WorkTree::Clean, WorkTree::Untracked, WorkTree::ModifiedTracked] } else { &[WorkTree::Clean] };
+                    let bases: Vec<[u64; 3]> = nearest.iter().map(|t| { let same: Vec<&&Tag> = tagged.iter().filter(|u| u.target == t.target).collect(); same.iter().map(|u| names.iter().find(|x| x.0 == u.name).map(|x| x.1).unwrap_or([1, 0, 0])).max().unwrap() }).collect();
+                    let wts: &[WorkTree] = if tags.len() == 1 || tags.len() == 3 { &[WorkTree::Clean, WorkTree::Untracked, WorkTree::ModifiedTracked] } else { &[WorkTree::Clean] };
                     for &wt in wts {
                         repo.reset_worktree();
                         repo.set_worktree(wt, "f0");
